@@ -114,7 +114,8 @@ def strategy(tier):
              "seed": draw(st.integers(0, 2 ** 32 - 1)),
              "n": draw(st.sampled_from([1, 1, 2, 3, 5, 8, 13, 20])),
              "style": draw(st.sampled_from(["mixed", "mixed", "keyword", "positional"])),
-             "int_form": draw(st.sampled_from(["python", "python", "numpy"]))}
+             "int_form": draw(st.sampled_from(["python", "python", "numpy"])),
+             "deep_tail": draw(st.sampled_from([0, 0, 0, 0, 0, 1, 2]))}
         if kind in ("d", "p", "m") and draw(st.integers(0, 3)) == 0:
             c["vector"] = [_sig(draw(st.floats(1e-3, 1 - 1e-3)), 6) for _ in range(draw(st.integers(2, 5)))]
             c["vector_reversed"] = draw(st.booleans())
@@ -312,9 +313,22 @@ def _oracle_one(case, rec, count=True):
     x = float(x)
     if case.get("x_fixed") is not None and kind in "dp":
         x, inside = float(case["x_fixed"]), True
+    log = bool(case["log"])
+    if case.get("deep_tail") and log and not use_def and case.get("x_fixed") is None:
+        # far out in a tail, where the plain density / cdf underflows a double but its logarithm is an ordinary number - the
+        # reason the log forms exist
+        z = {1: 40.0, 2: 60.0}[case["deep_tail"]]
+        if fam == "norm" and kind in "dp":
+            x, inside = float(P["mean"]) - z * float(P["sd"]) if kind == "p" else float(P["mean"]) + z * float(P["sd"]), True
+            rec.label("argument:deep-tail")
+        elif fam in ("exp", "gamma") and kind == "d":
+            x, inside = 20.0 * z / float(P["rate"]), True
+            rec.label("argument:deep-tail")
+        elif fam == "chisq" and kind == "d":
+            x, inside = 40.0 * z, True
+            rec.label("argument:deep-tail")
     if not math.isfinite(x):
         raise Inconclusive("argument not finite")
-    log = bool(case["log"])
     if count:
         rec.label("family:" + fam, "kind:" + kind, "log" if (log and kind in "dp") else "plain")
     nontrivial = (not use_def) and inside
